@@ -614,7 +614,7 @@ fn run_exhaustive(ctx: &Ctx, threads: usize) {
     let got = ctx.get_obs("exhaustive.sequences_total");
     let cut = ctx.get_obs("exhaustive.subtrees_cut_after_violation");
     ctx.set_extra(
-        "exhaustive",
+        "exhaustive_part",
         json!({"capacities": caps, "keys": hexkeys(&pool), "alphabet": alpha.iter().map(Op::encode).collect::<Vec<_>>(), "max_len": max_len, "sequences_expected": expect, "sequences_judged": got, "subtrees_cut_after_violation": cut}),
     );
     // the space was enumerated completely iff every sequence was judged
